@@ -73,3 +73,56 @@ def u_error_book(ip):
     book = ip.module_global(get_module(MH), "mh_error_book")
     ip.ctx.oblige("book_has_90", isinstance(book, dict) and 90 in book and "nan" in str(book[90]).lower())
     ip.ctx.oblige("book_has_0", isinstance(book, dict) and 0 in book)
+
+
+# ---------------------------------------------------------------------------------------------------------------------
+# the kernels built on mh_step ("transition infos of RW/MH/IWLS kernels"): what mh_step decides is what the kernel reports
+from contracts.common import KERNELS, sym_da_state, sym_epoch_state, sym_kernel  # noqa: E402
+
+
+def passthrough_unit(kind, uid=None, prop="C05"):
+    rel, kcls, _ = KERNELS[kind]
+
+    @unit(uid or f"C05.kernel_passthrough.{kind}", prop, [f"{rel}::{kcls}._standard_transition", f"{rel}::{kcls}._adaptive_transition"], float_mode="fp32" if kind == "MH" else "real",
+          summaries=["mh_step (C05.mh_step)", "da_step (C11): changes the kernel state only"])
+    def u(ip, kind=kind):
+        """the kernel reports exactly what mh_step decided: the transition outcome carries mh_step's info object and mh_step's model state
+        (standard and adaptive transition); for the user-proposal kernel the log-correction handed to mh_step is bit-for-bit the one the
+        proposal function returned - including NaN, so that an undefined ratio reaches the NaN guard."""
+        c = ip.ctx
+        import contracts.c06 as C06
+        rec = {}
+        C06.install(ip, rec)
+        ip.summaries["liesel/goose/da.py::da_step"] = lambda ip_, args, kwargs: None
+        k = sym_kernel(ip, kind, keys=("a", "b") if kind != "MH" else ("a",))
+        ms, key = z3.Const("ms", U), z3.Const("key", U)
+        for meth in ("_standard_transition", "_adaptive_transition"):
+            rec.clear()
+            infos = []
+            mh0 = ip.summaries["liesel/goose/mh.py::mh_step"]
+
+            def mh(ip_, args, kwargs, mh0=mh0):
+                r = mh0(ip_, args, kwargs)
+                infos.append(r[0])
+                return r
+
+            ip.summaries["liesel/goose/mh.py::mh_step"] = mh
+            ks = sym_da_state(ip, kind)
+            out = ip.call(method(ip, k, meth), [key, ks, ms, sym_epoch_state(ip, meth)], {})
+            ip.summaries["liesel/goose/mh.py::mh_step"] = mh0
+            c.oblige(f"{meth}.mh_step_called_once", len(infos) == 1)
+            if len(infos) == 1:
+                c.oblige(f"{meth}.reports_mh_step_info", out.f["info"] is infos[0])
+                c.oblige(f"{meth}.returns_mh_step_state", is_z3(out.f["model_state"]) and out.f["model_state"].eq(z3.Const("ms_after", U)))
+            if kind == "MH" and rec.get("mh_args") is not None and len(rec["mh_args"]) == 5 and meth == "_standard_transition":
+                k0 = ip.uf("split", key, z3.IntVal(0))
+                want = ip.uf("user_corr", k0, ms, ks.f["step_size"], sort=FP32)
+                got = rec["mh_args"][4]
+                c.witness("user_log_correction", want)
+                c.oblige("user_correction_reaches_mh_step_bit_for_bit", is_z3(got) and got.sort() == FP32 and
+                         And(z3.fpIsNaN(got) == z3.fpIsNaN(want), Or(z3.fpIsNaN(want), z3.fpEQ(got, want))))
+    return u
+
+
+for _k in ("RW", "MH", "IWLS"):
+    passthrough_unit(_k)
